@@ -49,6 +49,20 @@ pub fn run(_params: &[i64], ops: &Rows, mon: &mut Mon) -> Rows {
                 r.extend(s.iter().map(|b| *b as i64));
                 r
             }
+            4 => {
+                // ANY byte slice (not necessarily UTF-8: Latin-1 text from a C caller, a cut multi-byte sequence): the owned buffer must hold the input up
+                // to its first NUL and one NUL.  Read through the raw pointer only (the `str` views are for UTF-8 contents), then free.
+                let c = ReprCString::from(&input[..]);
+                let p: *const u8 = unsafe { std::mem::transmute_copy::<ReprCString, *const u8>(&c) };
+                let mut got: Vec<u8> = Vec::new();
+                unsafe { let mut q = p; while *q != 0 && got.len() <= input.len() + 8 { got.push(*q); q = q.add(1); } }
+                if got != expect { mon.fail(format!("case{} ReprCString::from(&[u8]) holds the bytes {:?} for the input {:?} (expected the input up to its first NUL)", k, got, input)); }
+                let n1 = got.len() as i64 + 1;
+                drop(c);
+                let mut r = vec![1, 0, n1, n1, 1, got.len() as i64];
+                r.extend(got.iter().map(|b| *b as i64));
+                r
+            }
             _ => {
                 let cs = std::ffi::CString::new(expect.clone()).unwrap();
                 let r0 = ReprCStr::from(cs.as_c_str());
